@@ -9,8 +9,8 @@ pub trait Spec {
     type S: Clone + Eq + Hash;
     type O;
     fn init(&self) -> Self::S;
-    /// new state if `op` (including its observed result) is legal in `s`
-    fn step(&self, s: &Self::S, op: &Self::O) -> Option<Self::S>;
+    /// successor states if `op` (including its observed result) is legal in `s` (empty = illegal)
+    fn step(&self, s: &Self::S, op: &Self::O) -> Vec<Self::S>;
 }
 
 #[derive(Debug, PartialEq)]
@@ -30,7 +30,7 @@ pub fn check<SP: Spec>(spec: &SP, ops: &[SP::O], completed: &[bool], prec: &dyn 
     let mut before = vec![0u64; n];
     for i in 0..n {
         for j in 0..n {
-            if i != j && completed[j] && prec(j, i) {
+            if i != j && prec(j, i) {
                 before[i] |= 1 << j;
             }
         }
@@ -50,7 +50,7 @@ pub fn check<SP: Spec>(spec: &SP, ops: &[SP::O], completed: &[bool], prec: &dyn 
             if done & (1 << i) != 0 || before[i] & !done != 0 {
                 continue;
             }
-            if let Some(ns) = spec.step(&st, &ops[i]) {
+            for ns in spec.step(&st, &ops[i]) {
                 let key = (done | (1 << i), ns);
                 if seen.insert(key.clone()) {
                     stack.push(key);
